@@ -1,4 +1,5 @@
 import QuicModel.Compose.PacketLayout
+import QuicProofs.Lemmas.PacketNumber
 /-
   Helper lemmas for the coverage statement of C06 (`every_byte_authenticated`): the receiver's map
   wire bytes ↦ (AAD, ciphertext‖tag) of `QuicModel/Compose/PacketLayout.lean` is injective.
@@ -188,6 +189,21 @@ theorem aeadInput_injective (maskOf : List Nat → List Nat) (hp hq : Nat) (p q 
       have key : sp = sq := Option.some.inj hs
       subst key
       exact unprotect_injective (maskOf sp) hp hp p q x h1 h2 ep eq
+
+/-! ### the nonce depends on the packet number -/
+
+theorem nonce_injective (iv : List Nat) (pn1 pn2 : Nat) (h1 : pn1 < 2 ^ 64) (h2 : pn2 < 2 ^ 64)
+    (h : nonce iv pn1 = nonce iv pn2) : pn1 = pn2 := by
+  unfold nonce at h
+  have hl : (Quic.beBytes 4 0 ++ Quic.beBytes 8 pn1).length = (Quic.beBytes 4 0 ++ Quic.beBytes 8 pn2).length := by
+    simp [Quic.Proofs.PacketNumber.beBytes_length]
+  have h' := xorMask_inj iv _ _ hl h
+  have h8 : Quic.beBytes 8 pn1 = Quic.beBytes 8 pn2 := List.append_cancel_left h'
+  have hv := congrArg Quic.beVal h8
+  rw [Quic.Proofs.PacketNumber.beVal_beBytes, Quic.Proofs.PacketNumber.beVal_beBytes] at hv
+  have e : (256 : Nat) ^ 8 = 2 ^ 64 := by decide
+  rw [e, Nat.mod_eq_of_lt h1, Nat.mod_eq_of_lt h2] at hv
+  exact hv
 
 /-! ### the region list has no gaps -/
 
